@@ -7,54 +7,39 @@ Local Open Scope Z_scope.
 Definition bits (agree spec dom : bool) : N :=
   ((if agree then 1 else 0) + (if spec then 2 else 0) + (if dom then 4 else 0))%N.
 
-(* ---- value level: raw rust_decimal operations -------------------------------------
-   d, k            : input decimal and number of decimals
-   r               : a.round_dp_with_strategy(k, MidpointAwayFromZero)
-   t_round         : format!("{:.k$}", r)        (what the reports do)
-   t_trunc         : format!("{:.k$}", a)        (Display alone: truncates / pads)
-   t_plain         : format!("{}", a)
-   bit 1: model = implementation (representation of r, all three texts)
-   bit 2: r and t_round satisfy the specification oracles
-   bit 4: inside the exact domain *)
+(* ---- value level: raw rust_decimal operations; d, k = input decimal, number of decimals *)
 Definition ostr_eqb (a b : option str) : bool := opt_eqb (list_eqb N.eqb) a b.
 
-(* texts are options: None = the implementation panicked (Display buffer, finding F18).
-   bit 2 is clear when the rounded figure could not be printed at all. *)
-Definition c17_val_case (d : dec) (k : N) (r : dec) (t_round t_trunc t_plain : option str) : N :=
+(* r       : a.round_dp_with_strategy(k, MidpointAwayFromZero)
+   t_plain : a.to_string()            t_rplain : r.to_string()
+   t_trunc : format!("{:.k$}", a)     t_round  : format!("{:.k$}", r)   (None = the LIBRARY
+             panicked: more than 32 characters; tackler does not call this any more)
+   bit 1: model = implementation (representation of r, the four texts, panics included)
+   bit 2: r and its plain text satisfy the specification oracles; where the library's
+          precision Display answers, its text satisfies the oracle too
+   bit 4: inside the exact domain *)
+Definition c17_val_case (d : dec) (k : N) (r : dec) (t_plain t_rplain : str)
+           (t_trunc t_round : option str) : N :=
   let m := dround_hafz d k in
   let agree := drepr_eqb m r
-               && ostr_eqb (dfmt_prec m k) t_round
+               && list_eqb N.eqb (dfmt d) t_plain
+               && list_eqb N.eqb (dfmt m) t_rplain
                && ostr_eqb (dfmt_prec d k) t_trunc
-               && ostr_eqb (dfmt d) t_plain in
+               && ostr_eqb (dfmt_prec m k) t_round in
   let spec := round_ok k d r
-              && match t_round with Some t => shown_ok (mkScale k k) d t | None => false end in
+              && shown_ok (mkScale 0 k) d t_rplain
+              && match t_round with
+                 | Some t => shown_ok (mkScale k k) d t
+                 | None => true
+                 end in
   bits agree spec (fits d && (k <=? 28)%N).
 
-(* the class of finding F18: the figure, rounded for display, needs more than 32 characters *)
-Definition c17_val_overflow (d : dec) (k : N) : N :=
-  if dfmt_room (dround_hafz d k) k then 0%N else 1%N.
-
 (* ---- report level --------------------------------------------------------------------
-   a figure of a report: the exact decimal from the hook, the text found in the report,
-   and whether the stored scale of the figure may differ between two computations of the
-   same report (tree sums: the scale of a sum depends on the hash-set iteration order,
-   finding F8; the value does not) *)
-Record fig : Type := mkFig { f_exact : dec; f_text : str; f_scale_free : bool }.
-
-(* the same value stored with scale s (s >= scale needed) *)
-Definition with_scale (d : dec) (s : N) : dec :=
-  if (ds d <=? s)%N then mkDec (dm d * pow10 (s - ds d)) s
-  else mkDec (dm d / pow10 (ds d - s)) s.
-
-Fixpoint scales_upto (n : nat) : list N :=
-  match n with O => [0%N] | S n' => N.of_nat n :: scales_upto n' end.
+   a figure of a report: the exact decimal from the hook and the text found in the report *)
+Record fig : Type := mkFig { f_exact : dec; f_text : str }.
 
 Definition fig_agree (sc : scale_cfg) (f : fig) : bool :=
-  if f_scale_free f
-  then existsb (fun s => needs_at_most (f_exact f) s
-                         && ostr_eqb (shown_text sc (with_scale (f_exact f) s)) (Some (f_text f)))
-               (scales_upto 28)
-  else ostr_eqb (shown_text sc (f_exact f)) (Some (f_text f)).
+  list_eqb N.eqb (shown_text sc (f_exact f)) (f_text f).
 
 Definition fig_spec (sc : scale_cfg) (f : fig) : bool := shown_ok sc (f_exact f) (f_text f).
 
@@ -88,8 +73,3 @@ Definition c17_rep_case (sc : scale_cfg) (figs : list fig) (sums : list (dec * l
              end in
   (bits agree spec dom + 8 * bad)%N.
 
-(* a report whose text operation panicked: figs carry the exact figures (texts unused).
-   1 = the model predicts the panic too (some figure has no text), 0 = it does not *)
-Definition c17_rep_panics (sc : scale_cfg) (figs : list fig) : N :=
-  if forallb (fun f => match shown_text sc (f_exact f) with Some _ => true | None => false end) figs
-  then 0%N else 1%N.
